@@ -64,7 +64,7 @@ func tamperCase() Case {
 }
 
 func concCase(prop, engine string, weight int, free bool, oracles map[string]bool) Case {
-	prof := dbworld.Profile{Prop: prop, Oracles: oracles}
+	prof := dbworld.Profile{Prop: prop, Oracles: oracles, CondHeavy: prop == "C09"}
 	return Case{Prop: prop, Engine: engine, Weight: weight,
 		Real: []string{"db", "acl", "audit", "server handlers", "client/setec.Client", "tink AEAD (real key)", "tmpfs file system"},
 		Stub: []string{"tailnet WhoIs", "network (in-process transport)", "goroutine scheduler (baton at lock/audit/WhoIs/transport park points)"},
@@ -111,11 +111,12 @@ var Cases = []Case{
 	seqCase("C08", "dbworld-http", 1, dbworld.Profile{Restricted: 2, HTTPMode: 2, Corruptions: true, MaxOps: 40, MaxNames: 3,
 		Oracles: orc("http-gate", "http-status", "http-leak", "result", "list", "denied", "state", "audit", "open")}),
 	seqCase("C05", "dbworld-scan", 3, dbworld.Profile{Scan: true, KEKOutage: true, RestartMode: 1, MaxOps: 25, MaxNames: 3,
-		Oracles: orc("plaintext", "mode", "kek", "result", "state", "restart", "open")}),
+		Oracles: orc("plaintext", "mode", "kek", "result", "state", "restart", "open", "audit-noleak")}),
 	tamperCase(),
 	concCase("C14", "dbworld-conc", 1, false, orc("linearizable", "deadlock")),
 	concCase("C14", "dbworld-conc-free", 1, true, orc("linearizable", "deadlock")),
 	concCase("C06", "dbworld-conc-free", 1, true, orc("audit-file")),
+	concCase("C09", "dbworld-conc", 1, false, orc("linearizable", "deadlock")),
 	{Prop: "C17", Engine: "backupworld", Weight: 1,
 		Real: []string{"server/backup.go (periodicBackup, doBackup)", "db (real file on tmpfs)", "aws-sdk-go-v2 s3 client (signing, serialisation)", "package time under testing/synctest"},
 		Stub: []string{"S3 endpoint (in-memory bucket as the SDK's HTTPClient)", "goroutine scheduler (baton at database-lock and upload park points)"},
